@@ -138,9 +138,12 @@ def main(argv):
         print('  rule %-10s instances=%-4d failed=%d  %s' % (r, c['instances'], c['failed'], ctx.rules.get(r, '')[:110]))
     for o in kf:
         print('KNOWN-FINDING: property=%s %s :: %s' % (pid, o['key'], o['desc']))
+    rdir = os.path.join(VERIF, 'build', 'replay')
+    os.makedirs(rdir, exist_ok=True)
+    import glob as _glob
+    for old in _glob.glob(os.path.join(rdir, pid + '-*.json')):
+        os.remove(old)   # replay files of an earlier run of this check
     if viol:
-        rdir = os.path.join(VERIF, 'build', 'replay')
-        os.makedirs(rdir, exist_ok=True)
         for i, o in enumerate(viol):
             rp = os.path.join(rdir, '%s-%d.json' % (pid, i))
             with open(rp, 'w') as f:
